@@ -7,3 +7,4 @@ Ltac Zify.zify_post_hook ::= Z.to_euclidean_division_equations.
 
 Lemma cfold_folds_to_spec_l : folds_to_spec known_bad_cfold cfold_tbl.
 Proof. walk_filtered folds_to_spec_filter solve_fold_row. Qed.
+
